@@ -104,7 +104,8 @@ theorem inv_new (size : Nat) (h : 0 < size) : Inv (new (α := α) size) 0 [] whe
   rd := fun _ => rfl
   occ := fun i hi => by simp at hi
   emp := fun i _ hi => by
-    simp only [slot, new, Nat.zero_add, Nat.mod_eq_of_lt hi, List.getElem?_replicate, hi, if_true, Option.join_some]
+    simp only [slot, new, Nat.zero_add, List.getElem?_replicate]
+    rw [if_pos (Nat.mod_lt _ h)]; rfl
 
 theorem inv_close {r : Ring α} {base : Nat} {items : List α} (h : Inv r base items) :
     Inv (close r) r.writeIndex [] where
@@ -149,8 +150,7 @@ theorem push_room {r : Ring α} {base : Nat} {items : List α} (h : Inv r base i
   have hs := h.size_pos
   have hwlt : r.writeIndex < r.buffer.length := by rw [h.len, h.wr]; exact Nat.mod_lt _ hs
   have hnone : slot r r.writeIndex = none := by rw [h.wr]; exact h.emp _ (Nat.le_refl _) hroom
-  have hp : push r x = ({ r with buffer := r.buffer.set r.writeIndex (some x),
-                                writeIndex := (r.writeIndex + 1) % r.size }, true) := by
+  have hp : push r x = ({ r with buffer := r.buffer.set r.writeIndex (some x), writeIndex := (r.writeIndex + 1) % r.size }, true) := by
     simp only [push, hnone]
   rw [hp]
   refine ⟨rfl, ?_⟩
@@ -159,9 +159,10 @@ theorem push_room {r : Ring α} {base : Nat} {items : List α} (h : Inv r base i
     len := by simp only [List.length_set]; exact h.len
     base_lt := h.base_lt
     rd_lt := h.rd_lt
-    n_le := by simp only [List.length_append, List.length_singleton]; omega
+    n_le := by simp only [List.length_append, List.length_singleton]; show _ ≤ r.size; omega
     wr := by
       simp only [List.length_append, List.length_singleton]
+      show (r.writeIndex + 1) % r.size = _
       rw [h.wr, Nat.mod_add_mod, Nat.add_assoc]
     rd := h.rd
     occ := by
@@ -174,14 +175,15 @@ theorem push_room {r : Ring α} {base : Nat} {items : List α} (h : Inv r base i
         simp
       · have hilt : i < items.length := by omega
         have hne : r.writeIndex ≠ (base + i) % r.size := by
-          rw [h.wr]; intro he; exact hin (idx_inj (by omega) hroom he).symm
+          rw [h.wr]; intro he; exact hin (idx_inj hroom (by omega) he).symm
         rw [slot_set_ne r _ _ (some x) hne _ rfl, h.occ i hilt, List.getElem?_append_left hilt]
     emp := by
       intro i hi his
       simp only [List.length_append, List.length_singleton] at hi
       have hne : r.writeIndex ≠ (base + i) % r.size := by
         rw [h.wr]; intro he
-        have := idx_inj hroom his he
+        have his' : i < r.size := his
+        have := idx_inj hroom his' he
         omega
       rw [slot_set_ne r _ _ (some x) hne _ rfl]
       exact h.emp i (by omega) his }
@@ -210,8 +212,7 @@ theorem pull_item {r : Ring α} {base : Nat} {x : α} {xs : List α} (h : Inv r 
     rw [hrd, Nat.add_zero, Nat.mod_eq_of_lt h.base_lt]
   have hx : slot r r.readIndex = some x := by
     rw [hb, h.occ 0 (by simp)]; rfl
-  have hp : pullTry r = ({ r with buffer := r.buffer.set r.readIndex none,
-                                  readIndex := (r.readIndex + 1) % r.size }, .item x) := by
+  have hp : pullTry r = ({ r with buffer := r.buffer.set r.readIndex none, readIndex := (r.readIndex + 1) % r.size }, .item x) := by
     simp only [pullTry, hc, hx]
     rfl
   rw [hp]
@@ -224,7 +225,7 @@ theorem pull_item {r : Ring α} {base : Nat} {x : α} {xs : List α} (h : Inv r 
     len := by simp only [List.length_set]; exact h.len
     base_lt := Nat.mod_lt _ hs
     rd_lt := Nat.mod_lt _ hs
-    n_le := by omega
+    n_le := by show xs.length ≤ r.size; omega
     wr := by
       show r.writeIndex = _
       rw [h.wr, idx_succ, List.length_cons]
@@ -241,6 +242,8 @@ theorem pull_item {r : Ring α} {base : Nat} {x : α} {xs : List α} (h : Inv r 
       simp
     emp := by
       intro i hi his
+      have his' : i < r.size := his
+      clear his
       show slot _ (((base + 1) % r.size + i) % r.size) = _
       rw [idx_succ]
       by_cases hlast : i + 1 = r.size
